@@ -11,7 +11,7 @@ from itertools import product
 
 from .. import formula as F
 from ..absint import iter_events
-from ..absvals import Const, Sym, PredV, LinV, Ref, ElemV, TupleV, HObj, HSolver, HWcnf, PTRUE, show_pred, desc
+from ..absvals import Const, Sym, PredV, LinV, Ref, ElemV, TupleV, HObj, HList, HDict, HSolver, HWcnf, PTRUE, show_pred, desc
 from ..front import AnalysisError
 from ..harness import (Explorer, make_belief_base, make_epistemic_state, make_query, A, B, QUERY, material, verification,
                        falsification, canon_items, canon_item, flat, each_item, show_items, show_item, fn_label, decided,
@@ -203,78 +203,57 @@ def check_sides(rep, be: Backend, site, p, prefix):
 
 
 def check_ignore(rep, site, ev, prefix):
-    """W.ignore: the ignore list is the complement of the soft owners: the keys of every layer other than k.  The list
-    is read as a union of segments `all keys of the layers j in <selection>`; the selection of each segment (all layers
-    under a guard on the layer, a slice of the partition) is evaluated for every k on partitions of 1..4 layers and the
-    union compared with {j : j ≠ k}."""
-    iv = ev.ignore_view
-    where = f"{site}:{ev.node.lineno}"
-    det = repr(iv)[:200]
-    if not (isinstance(iv, tuple) and iv[0] == "list"):
-        raise AnalysisError(f"{where}: unrecognised form of the ignore argument: {det}")
-    layer_k = ("elem", ("at", PVAR, ("lin", K)), "layer")
+    """(W.ignore is decided by ignore_evaluated, once per operator, on concrete partitions.)"""
+    return
 
-    def bound(x, k, n, dflt):
-        if x is None or x == ("c", None):
-            return dflt
-        if x == "k":
-            return k
-        if isinstance(x, tuple) and x[:1] == ("c",) and isinstance(x[1], int):
-            return x[1] if x[1] >= 0 else n + x[1]
-        if isinstance(x, tuple) and x[:1] == ("lin",):
-            tot = x[1][1]
-            for t, c in x[1][0]:
-                if t == "k":
-                    tot += c * k
-                elif t == ("len", PVAR):
-                    tot += c * n
-                else:
-                    return None
-            return tot
-        return None
 
-    selectors = []
-    for sg in iv[1]:
-        if sg[0] != "each*":
-            raise AnalysisError(f"{where}: unrecognised form of the ignore argument: {det}")
-        _, b, fam, g, inner = sg
-        inner_ok = inner[0] == "each" and inner[2] in (("members", b), ("members", ("elem", b, "plain")), ("members", ("elem", b, "layer"))) and isinstance(inner[4], ElemV) and inner[4].var == inner[1] and inner[3] == PTRUE
-        if not inner_ok:
-            raise AnalysisError(f"{where}: unrecognised form of the ignore argument: {det}")
-        me = ("elem", b, "layer")
-        eq = ("cmp", "==", *sorted([layer_k, me], key=repr))
-        if fam == ("members", PVAR):
-            lo = hi = None
-        elif fam[0] == "members" and isinstance(fam[1], tuple) and fam[1][:1] == ("slice",) and (fam[1][1] == PVAR or (isinstance(fam[1][1], tuple) and fam[1][1][:2] == ("elem", PVAR))):
-            lo, hi = fam[1][2], fam[1][3]
-        else:
-            raise AnalysisError(f"{where}: unrecognised form of the ignore argument: {det}")
-        if g == PTRUE:
-            gk = "all"
-        elif g == ("not", eq):
-            gk = "other"
-        elif g == eq:
-            gk = "same"
-        else:
-            raise AnalysisError(f"{where}: unrecognised form of the ignore argument: {det}")
-        selectors.append((lo, hi, gk))
+def ignore_evaluated(rep, ex: Explorer, be: Backend, prefix):
+    """W.ignore / LEX.ignore: the ignore list is the complement of the soft owners - the keys of every layer other than k.
+    Decided by evaluating `_rec_inference` on concrete partitions of 1..4 layers (layers of one and two keys) at every
+    layer index k and reading the list handed to every minimal-correction-set computation, however it is built."""
+    qual = f"{be.cls}._rec_inference"
+    site = fn_label(ex.prog, qual)
+    be.discover_query_slots(ex)
     bad = None
+    n_calls = 0
+    line = None
     for n in (1, 2, 3, 4):
+        layers = [[10 * j + i for i in range(1, 2 + j % 2)] for j in range(n)]
         for k in range(n):
-            got = set()
-            for lo, hi, gk in selectors:
-                a, z = bound(lo, k, n, 0), bound(hi, k, n, n)
-                if a is None or z is None:
-                    raise AnalysisError(f"{where}: unrecognised form of the ignore argument: {det}")
-                for j in range(max(a, 0), min(z, n)):
-                    if gk == "all" or (gk == "other" and j != k) or (gk == "same" and j == k):
-                        got.add(j)
-            want = {j for j in range(n) if j != k}
-            if got != want and bad is None:
-                miss, extra = sorted(want - got), sorted(got - want)
-                bad = f"with {n} layers at layer {k}: " + (f"layers {miss} are not ignored" if miss else "") + (" and " if miss and extra else "") + (f"layer {extra} is ignored although its conditionals are the soft owners" if extra else "")
-    rep.check(bad is None, f"{prefix}.ignore", where, "ignored owners", "ignore = keys of all layers other than k (complement of the soft owners): a conditional of another layer that the optimum falsifies must not be reported in place of one of layer k",
-              extracted=bad or "keys of the other layers", required="keys of the layers ≠ k", function=site)
+            def setup(I, layers=layers, k=k):
+                bb = make_belief_base(I)
+                st, pm = be.state(I)
+                st["partition"] = I.alloc(HList([("one", I.alloc(HList([("one", Const(x)) for x in L]))) for L in layers]))
+                es = make_epistemic_state(I, bb, "x", extra=st, pmaxsat=pm)
+                s = I.alloc(HObj(be.cls, {"epistemic_state": es}))
+                w = I.alloc(HWcnf(hard=[HEAD]))
+                if be.lex:
+                    return [s, w, I.alloc(HWcnf(hard=[HEAD_F])), Const(k), Sym("deadline")], {}
+                return [s, w, Const(k), Sym("deadline")], {}
+
+            paths = ex.run(qual, setup, summaries=be.summaries(), key=f"ignore-{be.cls}-{n}-{k}", hooks=be.hooks())
+            want = {x for j, L in enumerate(layers) if j != k for x in L}
+            for p in paths:
+                for ev, Q in iter_events(p.events):
+                    if ev.kind != "mcs":
+                        continue
+                    n_calls += 1
+                    line = line or ev.node.lineno
+                    if ev.ignore is None:
+                        got = set()
+                    else:
+                        o = p.state.heap.get(ev.ignore.oid) if isinstance(ev.ignore, Ref) else None
+                        if not (isinstance(o, HList) and all(sg[0] == "one" and isinstance(sg[1], Const) for sg in o.segs)):
+                            raise AnalysisError(f"{site}:{ev.node.lineno}: the ignore argument is not a list of keys on a concrete partition: {view(p.state, ev.ignore)!r}"[:300])
+                        got = {sg[1].value for sg in o.segs}
+                    if got != want and bad is None:
+                        miss, extra = sorted(want - got), sorted(got - want)
+                        own = [x for x in extra if x in layers[k]]
+                        bad = f"layers {layers} at layer {k}: " + (f"keys {miss} of other layers are not ignored" if miss else "") + (" and " if miss and extra else "") + \
+                            (f"keys {own} of layer {k} itself are ignored although they are the soft owners" if own else (f"keys {extra} that are in no other layer are ignored" if extra else ""))
+    rep.check(bad is None, f"{prefix}.ignore", f"{site}:{line}" if line else site, "ignored owners", "ignore = keys of all layers other than k (complement of the soft owners): a conditional of another layer that the optimum falsifies must not be reported in place of one of layer k",
+              extracted=bad or f"keys of the other layers (every computation on partitions of 1..4 layers, {n_calls} calls)", required="keys of the layers ≠ k", function=site)
+    rep.floor(f"{prefix}.ignore computations evaluated ({be.cls.rsplit('.', 1)[1]})", n_calls, 20)
 
 
 def incoming_unchanged(rep, site, p, prefix):
@@ -389,6 +368,8 @@ def w_rec(rep, ex: Explorer, be: Backend):
     be.discover_query_slots(ex)
     I_hooks = be.hooks()
     paths = ex.run(qual, be.rec_setup(), summaries=be.summaries(), key=f"wrec-{be.name}", hooks=I_hooks)
+    if be.name == "rc2":
+        ignore_evaluated(rep, ex, be, "W")
     n_rows = 0
     for p in paths:
         if p.outcome[0] == "raise":
@@ -426,6 +407,9 @@ def w_rec(rep, ex: Explorer, be: Backend):
         # ---- W.subset-test by evaluation on all small models
         skey, sval = S
         bad = subset_test_mismatch(skey, V, Fm)
+        if bad is not None and subset_test_mismatch(("not", skey), V, Fm) is None:
+            # the test written through its negation (not any(all(not x ⊆ y ...))): the decided predicate is ¬spec
+            skey, sval, bad = ("not", skey), (not sval), None
         rep.check(bad is None, "W.subset-test", site, "subset test", "every falsifying correction set has a verifying subset: ∀y∈F ∃x∈V: x⊆y",
                   extracted=show_pred(skey) + (f" differs for {bad}" if bad else ""), required="∀y∈F ∃x∈V: x⊆y", function=site)
         if bad is not None:
@@ -744,6 +728,8 @@ def lex_rec(rep, ex: Explorer, be: Backend):
     site = fn_label(ex.prog, qual)
     be.discover_query_slots(ex)
     paths = ex.run(qual, be.rec_setup(), summaries=be.summaries(), key=f"lexrec-{be.name}", hooks=be.hooks())
+    if be.name == "rc2":
+        ignore_evaluated(rep, ex, be, "LEX")
     n_rows = 0
     for p in paths:
         if p.outcome[0] == "raise":
@@ -875,16 +861,46 @@ def lex_rec(rep, ex: Explorer, be: Backend):
                 if ev.kind == "loop" and ev.fam in (("members", V), ("members", Fm)) and _contains_recurse(ev):
                     sd = "v" if ev.fam == ("members", V) else "f"
                     g = ev.seg_guard
-                    okg = False
-                    if g[0] == "cmp" and g[1] == "==" and g[2][0] == "lin":
-                        lin = g[2][1]
-                        terms = dict(lin[0])
-                        lenterm = ("len", ev.evar)
-                        mins = [t for t in terms if _min_term_side(t, V, Fm) == sd]
-                        okg = lin[1] == 0 and len(terms) == 2 and lenterm in terms and len(mins) == 1 and terms[lenterm] == -terms[mins[0]]
+                    # the selection, evaluated: a member of size s of a side whose least size is m (s ≥ m; in a tie both
+                    # sides have the same m) is kept iff s = m - however the test is written (==, not >, <=, ...)
+                    okg, bad_at = True, None
+                    for m_ in (0, 1, 2, 3):
+                        for s_ in (m_, m_ + 1, m_ + 2):
+                            val = _eval_size_guard(g, ("len", ev.evar), V, Fm, s_, m_)
+                            if val is None:
+                                raise AnalysisError(f"{site}:{ev.node.lineno}: selection of the tie's members in a form the analysis does not read: {show_pred(g)[:120]}")
+                            if val != (s_ == m_):
+                                okg, bad_at = False, bad_at or (s_, m_)
                     rep.check(okg, "LEX.cardinality", f"{site}:{ev.node.lineno}", f"tie members ({sd}-side)", "a tie continues with exactly the minimum-cardinality sets of each side",
-                              extracted=show_pred(g), required="|x| = min |·|", function=site)
+                              extracted=show_pred(g) + (f" (wrong for a set of size {bad_at[0]} when the least size is {bad_at[1]})" if bad_at else ""), required="|x| = min |·|", function=site)
     rep.floor(f"LEX cardinality rows ({be.name})", n_rows, 4)
+
+
+def _eval_size_guard(g, lenterm, V, Fm, s, m):
+    """Value of a guard over the size of the current set and the least size(s) of the two families; None when it mentions
+    anything else."""
+    k = g[0]
+    if k == "const":
+        return bool(g[1])
+    if k == "not":
+        v = _eval_size_guard(g[1], lenterm, V, Fm, s, m)
+        return None if v is None else not v
+    if k in ("and", "or"):
+        vals = [_eval_size_guard(q, lenterm, V, Fm, s, m) for q in g[1]]
+        if any(v is None for v in vals):
+            return None
+        return all(vals) if k == "and" else any(vals)
+    if k == "cmp" and g[1] in ("==", "<") and isinstance(g[2], tuple) and g[2][:1] == ("lin",) and isinstance(g[3], tuple) and g[3][:1] == ("c",):
+        total = g[2][1][1]
+        for t, c in g[2][1][0]:
+            if t == lenterm:
+                total += c * s
+            elif _min_term_side(t, V, Fm) in ("v", "f"):
+                total += c * m
+            else:
+                return None
+        return (total == g[3][1]) if g[1] == "==" else (total < g[3][1])
+    return None
 
 
 def _contains_recurse(loop_ev):
